@@ -279,6 +279,10 @@ def state_mesh_layout(ctx, rep, rule: str) -> None:
 def run(ctx, rep) -> None:
     rep.rule("C14.5", "aligned buffer size = smallest multiple of 64 that is >= the block's byte size (complete residue system)")
     rep.attempt("alignment_arithmetic", alignment_arithmetic, ctx, rep, "C14.5", COPIES)
+    from .common import utility_semantics
+
+    rep.rule("C14.6", "the pure utilities this property is built on compute what they document (concrete interpretation on small cases)")
+    rep.attempt("utility_semantics", utility_semantics, ctx, rep, "C14.6", ("get_dtype_size", "compress_list", "generate_pairwise_indices"))
     rep.rule("C14.1", "the assignment is a deterministic function of global block sizes and group size (stable largest-first, heap of (load, rank), consistent load bookkeeping)")
     rep.rule("C14.2", "state lives only on the owner: selector = assigned rank == rank in the communication group; owners come from the assignment; allocation iterates local lists")
     rep.rule("C14.3", "the DDP / HSDP / HybridShard copies of the assignment and buffer code agree")
